@@ -450,7 +450,7 @@ Proof.
   pose proof (klookup_final s sv false (w ++ [cl]) Hg) as Hfin.
   destruct (klookup s sv false false (abs_path (w ++ [cl]))) as [par kind name n|par name md| |e] eqn:HK; cbn [walk_rel] in R.
   - destruct (Hkn _ _ _ _ eq_refl) as (-> & ->). destruct Hfin as (F1 & F2 & _).
-    destruct R as (R1 & R2 & R3 & _ & R4). destruct (R4 eq_refl) as (R5 & R6).
+    destruct R as (R1 & R2 & R3 & _ & _ & R4). destruct (R4 eq_refl) as (R5 & R6).
     destruct (at_name_views _ _ _ _ _ _ (R6 eq_refl)) as (V1 & _).
     assert (Hvp : get (f_heap s) par <> None) by (apply node_is_dir_valid; exact F2).
     assert (Hne : n <> par).
